@@ -55,6 +55,43 @@ theorem toCache_spec (cache : Cache K) (h : K) (d : String) (inst : PluginInst) 
       simp at hm'
       exact e hm'.1
 
+/-- `m[o] = inst` for every output `o` -/
+def setAll (m : CacheMap) (inst : PluginInst) : List String → CacheMap
+  | [] => m
+  | o :: os => setAll (dictSet m o inst) inst os
+
+theorem lookup_setAll (m : CacheMap) (inst : PluginInst) (outs : List String) (y : String) :
+    (setAll m inst outs).lookup y = if y ∈ outs then some inst else m.lookup y := by
+  induction outs generalizing m with
+  | nil => simp [setAll]
+  | cons o os ih =>
+    simp only [setAll, ih, lookup_dictSet, List.mem_cons]
+    by_cases h1 : y ∈ os
+    · simp [h1]
+    · by_cases h2 : y = o <;> simp [h1, h2]
+
+theorem toCacheAll_some (h : K) (m : CacheMap) (inst : PluginInst) (outs : List String) :
+    toCacheAll (some (h, m)) h inst outs = some (h, setAll m inst outs) := by
+  induction outs generalizing m with
+  | nil => rfl
+  | cons o os ih => simp only [toCacheAll, toCache, if_true, setAll]; exact ih _
+
+theorem toCacheAll_spec (cache : Cache K) (h : K) (inst : PluginInst) {outs : List String} (hne : outs ≠ []) :
+    (∃ m, cache = some (h, m) ∧ toCacheAll cache h inst outs = some (h, setAll m inst outs)) ∨
+    ((∀ m, cache ≠ some (h, m)) ∧ toCacheAll cache h inst outs = some (h, setAll [] inst outs)) := by
+  cases outs with
+  | nil => exact absurd rfl hne
+  | cons o os =>
+    rcases toCache_spec cache h o inst with ⟨m, hm, ht⟩ | ⟨hno, ht⟩
+    · left; exact ⟨m, hm, by rw [hm]; exact toCacheAll_some h m inst (o :: os)⟩
+    · right
+      refine ⟨hno, ?_⟩
+      simp only [toCacheAll, ht, setAll]
+      exact toCacheAll_some h _ inst os
+
+theorem outputs_ne_nil (cls : PluginClass) : cls.outputs ≠ [] := by
+  unfold PluginClass.outputs; simp
+
 /-- what one call of `getPlugin` / `foldDeps` guarantees about the cache it returns -/
 structure CacheStep (r : Registry) (c : Config) (h : K) (cache cache' : Cache K) : Prop where
   good : GoodCache r c h cache'
@@ -194,7 +231,7 @@ theorem getPlugin_succ (r : Registry) (c : Config) (h : K) (n : Nat) (d : String
             | (.error e, cache') => (.error e, cache')
             | (.ok ls, cache') =>
               (.ok ⟨cls, mergeLineage (ownEntry cls pc) ls⟩,
-               toCache cache' h d ⟨cls, mergeLineage (ownEntry cls pc) ls⟩) := rfl
+               toCacheAll cache' h ⟨cls, mergeLineage (ownEntry cls pc) ls⟩ cls.outputs) := rfl
 
 theorem lookup_dictSet_isSome {m : CacheMap} {d x : String} {inst : PluginInst}
     (h : (m.lookup x).isSome = true) : ((dictSet m d inst).lookup x).isSome = true := by
@@ -203,7 +240,7 @@ theorem lookup_dictSet_isSome {m : CacheMap} {d x : String} {inst : PluginInst}
 /-- `getPlugin` on a good cache: the cache stays good, whatever was cached stays cached, a
 returned instance is in the cache, and whenever the pure `lineage` is defined at this fuel so is
 the result. -/
-theorem getPlugin_spec {r : Registry} {c : Config} (h : K) (n : Nat) (d : String)
+theorem getPlugin_spec {r : Registry} (hw : r.WF) {c : Config} (h : K) (n : Nat) (d : String)
     (cache : Cache K) (hg : GoodCache r c h cache) :
     PluginSpec r c h n d cache (getPlugin r c h n d cache).1 (getPlugin r c h n d cache).2 := by
   induction n generalizing d cache with
@@ -262,61 +299,56 @@ theorem getPlugin_spec {r : Registry} {c : Config} (h : K) (n : Nat) (d : String
                 simp only
                 obtain ⟨hmem, pure, hp1, hp2, hp3⟩ := hd.ok_mem ls rfl
                 let inst : PluginInst := ⟨cls, mergeLineage (ownEntry cls pc) ls⟩
-                have hprov := (Registry.lookup_provides h1).1
-                -- the new instance is good
-                have hpure : lineage r c (fuelOf r + 1) d = .ok (mergeLineage (ownEntry cls pc) pure) :=
-                  lineage_succ_ok.mpr ⟨cls, pc, pure, h1, by simpa using h2, h3, hp1, rfl⟩
+                have hd_out : d ∈ cls.outputs := (cls.makes_iff d).mp (Registry.lookup_mem h1).1
+                -- the new instance is good for every output of the class
+                have hpure : ∀ y ∈ cls.outputs, r.lookup y = some cls ∧
+                    lineage r c (fuelOf r + 1) y = .ok (mergeLineage (ownEntry cls pc) pure) := by
+                  intro y hy
+                  have hl := Registry.lookup_output hw h1 ((cls.makes_iff y).mpr hy)
+                  exact ⟨hl, lineage_succ_ok.mpr ⟨cls, pc, pure, hl, by simpa using h2, h3, hp1, rfl⟩⟩
                 have hlin : LinEq inst.lineage (mergeLineage (ownEntry cls pc) pure) :=
                   mergeLineage_congr (LinEq.refl _) hp2
                 have hnod : NodupKeys inst.lineage := mergeLineage_nodup (ownEntry_nodup cls pc) ls
-                rcases toCache_spec cd h d inst with ⟨m, hm, ht⟩ | ⟨hno, ht⟩
-                · -- the cache already belongs to this hash: insert
-                  have hgm := hd.good m hm
-                  refine ⟨⟨?_, ?_, Or.inr ⟨_, ht⟩⟩, ?_, fun _ _ => ⟨inst, rfl⟩⟩
-                  · intro m' hm'
-                    rw [ht] at hm'; cases hm'
-                    intro y iy hy
-                    rw [lookup_dictSet] at hy
-                    by_cases e : y = d
-                    · subst e
-                      simp at hy; subst hy
-                      refine ⟨h1, ⟨_, _, hpure, hlin⟩, hnod, ?_⟩
-                      intro x hx
-                      apply lookup_dictSet_isSome
+                -- the map the new entries are added to
+                have hbase : ∃ base, toCacheAll cd h inst cls.outputs = some (h, setAll base inst cls.outputs) ∧
+                    GoodMap r c base ∧ (∀ x ∈ cls.dependsOn, (base.lookup x).isSome = true) ∧
+                    (∀ m0 x, cache = some (h, m0) → (m0.lookup x).isSome = true → (base.lookup x).isSome = true) := by
+                  rcases toCacheAll_spec cd h inst (outputs_ne_nil cls) with ⟨m, hm, ht⟩ | ⟨hno, ht⟩
+                  · refine ⟨m, ht, hd.good m hm, ?_, ?_⟩
+                    · intro x hx
                       rcases hmem with hnil | ⟨m', hm', hall⟩
                       · rw [hnil] at hx; simp at hx
                       · rw [hm] at hm'; cases hm'; exact hall x hx
-                    · simp [e] at hy
-                      obtain ⟨a, b, c', dd⟩ := hgm y iy hy
-                      exact ⟨a, b, c', fun x hx => lookup_dictSet_isSome (dd x hx)⟩
-                  · intro m0 x hm0 hs
-                    obtain ⟨m', hm', hs'⟩ := hd.keep m0 x hm0 hs
-                    rw [hm] at hm'; cases hm'
-                    exact ⟨_, ht, lookup_dictSet_isSome hs'⟩
-                  · intro i hi
-                    simp at hi; subst hi
-                    exact ⟨_, ht, by rw [lookup_dictSet]; simp [inst]⟩
-                · -- first instance under this hash: the dependencies list must be empty
-                  have hnil : cls.dependsOn = [] := by
-                    rcases hmem with hnil | ⟨m', hm', _⟩
-                    · exact hnil
-                    · exact absurd hm' (hno m')
-                  refine ⟨⟨?_, ?_, Or.inr ⟨_, ht⟩⟩, ?_, fun _ _ => ⟨inst, rfl⟩⟩
-                  · intro m' hm'
-                    rw [ht] at hm'; cases hm'
-                    intro y iy hy
-                    rw [lookup_cons'] at hy
-                    by_cases e : y = d
-                    · subst e
-                      simp at hy; subst hy
-                      refine ⟨h1, ⟨_, _, hpure, hlin⟩, hnod, ?_⟩
-                      intro x hx; rw [hnil] at hx; simp at hx
-                    · simp [e] at hy
-                  · intro m0 x hm0 hs
-                    obtain ⟨m', hm', _⟩ := hd.keep m0 x hm0 hs
-                    exact absurd hm' (hno m')
-                  · intro i hi
-                    simp at hi; subst hi
-                    exact ⟨_, ht, by rw [lookup_cons']; simp [inst]⟩
+                    · intro m0 x hm0 hs
+                      obtain ⟨m', hm', hs'⟩ := hd.keep m0 x hm0 hs
+                      rw [hm] at hm'; cases hm'; exact hs'
+                  · refine ⟨[], ht, by intro y iy hy; simp at hy, ?_, ?_⟩
+                    · intro x hx
+                      rcases hmem with hnil | ⟨m', hm', _⟩
+                      · rw [hnil] at hx; simp at hx
+                      · exact absurd hm' (hno m')
+                    · intro m0 x hm0 hs
+                      obtain ⟨m', hm', _⟩ := hd.keep m0 x hm0 hs
+                      exact absurd hm' (hno m')
+                obtain ⟨base, ht, hgb, hdeps, hkeep⟩ := hbase
+                have hsome : ∀ x, (base.lookup x).isSome = true → ((setAll base inst cls.outputs).lookup x).isSome = true := by
+                  intro x hx; rw [lookup_setAll]; split <;> simp [hx]
+                refine ⟨⟨?_, ?_, Or.inr ⟨_, ht⟩⟩, ?_, fun _ _ => ⟨inst, rfl⟩⟩
+                · intro m' hm'
+                  rw [ht] at hm'; cases hm'
+                  intro y iy hy
+                  rw [lookup_setAll] at hy
+                  by_cases e : y ∈ cls.outputs
+                  · simp [e] at hy; subst hy
+                    obtain ⟨hl, hL⟩ := hpure y e
+                    exact ⟨hl, ⟨_, _, hL, hlin⟩, hnod, fun x hx => hsome x (hdeps x hx)⟩
+                  · simp [e] at hy
+                    obtain ⟨a, b, c', dd⟩ := hgb y iy hy
+                    exact ⟨a, b, c', fun x hx => hsome x (dd x hx)⟩
+                · intro m0 x hm0 hs
+                  exact ⟨_, ht, hsome x (hkeep m0 x hm0 hs)⟩
+                · intro i hi
+                  simp at hi; subst hi
+                  exact ⟨_, ht, by rw [lookup_setAll]; simp [hd_out, inst]⟩
 
 end Strax.Lineage
